@@ -352,7 +352,9 @@ fn cli_job(ctx: &Ctx, job: usize, iters: u64) -> Stats {
     cfg.allow_fix = false;
     for _ in 0..iters {
         let ast = gen::gen_ast(&mut rng, &cfg);
-        let text = gen::render(&ast, &mut rng, Style::Plain);
+        // (every other text with alias spellings, comments glued to their neighbours, stray separators)
+        let style = if rng.chance(1, 2) { Style::Fancy } else { Style::Plain };
+        let text = gen::render(&ast, &mut rng, style);
         cli_case(ctx, &mut st, &text);
         cli_model_with_retain(ctx, &mut st, &text);
     }
